@@ -354,6 +354,18 @@ def gen_twoends(rng):
         if tB < aB:
             paths.append((2, [NEAR, EN], [10])); trips.append((len(paths) - 1, 0, ids.pop(), [tA, aA], [tA, aA], [1, 1], [1, 1]))
             paths.append((2, [NEAR, EF], [10])); trips.append((len(paths) - 1, 0, ids.pop(), [tB, aB], [tB, aB], [1, 1], [1, 1]))
+    # one run that calls at BOTH origin stops (NEAR first): at NEAR the first wait exceeds a first-waiting cap by less than the
+    # minimum waiting time, at FAR (long walk) it is within the cap; requests that hit this are kept as hints for gen_query
+    cap_hints = []
+    if rng.random() < 0.5:
+        T = t0 + rng.choice([1800, 5400]); g = rng.choice([120, 180]); h = rng.choice([600, 900])
+        paths.append((0, [NEAR, FAR, M, EN], [10, 10, 10]))
+        trips.append((len(paths) - 1, 0, ids.pop(), [T, T + g, T + g + h, T + g + 2 * h], [T, T + g, T + g + h, T + g + 2 * h], [1] * 4, [1] * 4))
+        for _ in range(3):
+            mw = rng.choice([60, 180]); cap = rng.choice([300, 600, 900]); delta = rng.randint(1, mw)
+            treq = T - wnear - cap - delta
+            if treq >= 0 and (T + g) - treq - wfar <= cap:
+                cap_hints.append((treq, cap, mw))
     if rng.random() < 0.5: rng.shuffle(trips)
     scen = [dict(services=[0], onlyLines=[], exceptLines=[], onlyAgencies=[], exceptAgencies=[], onlyModes=[], exceptModes=[])]
     hi = max(x for t in trips for x in t[3])
@@ -362,7 +374,7 @@ def gen_twoends(rng):
     if rng.random() < 0.5: egr.reverse()
     return dict(ns=ns, nag=1, nsv=1, foot=foot, lines=lines, paths=paths, trips=trips, scenarios=scen,
                 acc=acc, egr=egr,
-                cacheall=rng.choice([0, 1]), profile="twoends", t_hint=(t0 - 1500, hi + 1500))
+                cacheall=rng.choice([0, 1]), profile="twoends", t_hint=(t0 - 1500, hi + 1500), cap_hints=cap_hints)
 
 
 def gen_dataset(rng, stream):
@@ -427,6 +439,10 @@ def gen_query(rng, d, forward=None, cap=None, alt=False, limits=True):
         if rng.random() < 0.2: q["max_access_travel_time"] = rng.choice([0, 30, 100, 2000])
         if rng.random() < 0.2: q["max_egress_travel_time"] = rng.choice([0, 30, 100, 2000])
         if rng.random() < 0.05: q["min_waiting_time"] = rng.choice([32767, 32768, 65535, -3])
+    if prof == "twoends" and d.get("cap_hints") and forward is not False and rng.random() < 0.4:
+        treq, capv, mwv = rng.choice(d["cap_hints"])
+        q["time_of_trip"], q["time_type"], q["min_waiting_time"], q["max_first_waiting_time"] = treq, 0, mwv, capv
+        for k in ("max_travel_time", "max_access_travel_time", "max_egress_travel_time", "max_transfer_travel_time"): q.pop(k, None)
     if alt:
         q["alternatives"] = rng.choice(["1", "true"])
         # the alternatives search has its own travel-time window (30 min floor, fastest + 60 min): limits below the floor matter
